@@ -425,13 +425,33 @@ _c06x = json.load(open("kf_c06x_keys.json"))
 for _id in sorted(_c06x):
     kf("C06", _id, _c06x[_id]["what"], _c06x[_id]["keys"])
 
-# ---------------------------------------------------------------- C14 (overrides); exact key lists in kf_c14_keys.json
+# ---------------------------------------------------------------- C14 (overrides); pattern lists in kf_c14_keys.json
+# (generated from a run on the unchanged tree by tools/c14keys.py: one list per finding x sub-space of the check; a
+#  pattern with a wild-carded class covers only prefixes under which EVERY construct class fails that way today)
 _c14 = json.load(open("kf_c14_keys.json"))
-kf("C14", "C14-derived-override-evaluation", "ir.ProcessOverrides evaluates override initialisers through float64 with only + - * / implemented: derived overrides using %, bit operators, shifts, comparisons, unary operators, conversions or select get a wrong value, lose integer wrap-around / truncation semantics, or are reported as having \"no value provided and no default initializer\"", _c14.get("derived", []))
-kf("C14", "C14-nested-use-corruption", "after ProcessOverrides a module that uses overrides inside nested control flow or global initialisers has corrupted expression handles: stores through non-pointers, conditions of integer type, expressions used before their Emit, loops that no longer terminate; the SPIR-V backend rejects the module and the text backends emit ill-formed code", _c14.get("nested", []))
-kf("C14", "C14-msl-pipeline-constants", "msl.Options.PipelineConstants: a missing value without default is accepted, absent/supplied values give wrong results, or compilation fails with \"invalid expression handle\"", _c14.get("mslpc", []))
-kf("C14", "C14-glsl-pipeline-constants", "glsl.Options.PipelineConstants: with an empty map overrides are left unresolved (\"unsupported expression kind: ir.ExprOverride\"); otherwise the same wrong values and ill-formed output as the ProcessOverrides route", _c14.get("glslpc", []))
-kf("C14", "C14-caller-module-modified", "override resolution on ir.CloneModuleForOverrides alters the caller's module (shallow clone of nested blocks; see C12-overrides-shallow-clone)", _c14.get("caller", []))
+_c14_space = {
+    "spell": "spellings of defaults / literal operands in initialisers",
+    "shape": "dependency shapes over <= 3 overrides",
+    "comp": "overrides in composite constructors and with named constants",
+    "ops": "every scalar operator/builtin/conversion/bitcast on an override, in a function body, a helper, a derived initialiser or a module-scope var initialiser",
+    "chain": "depth-2 chains of core operators on an override",
+    "cf": "F2 control-flow trees steered by overrides",
+    "inj": "override use injected into F1 / F4 carrier programs",
+    "hist": "operation histories on one lowered module",
+}
+_c14_what = {
+    "derived": ("C14-derived-override-evaluation", "ir.ProcessOverrides evaluates override initialisers, global initialisers and the override-only sub-expressions of function bodies through float64 with only + - * / implemented: %, bit operators, shifts, comparisons, logical and unary operators, conversions, bitcasts, select and builtin calls get a wrong value (often the value of the operand, zero, or the default), integer semantics (truncating division of an intermediate, wrap-around, values above 2^24 / 2^31) are lost, u32 constants above 2^31 reach MSL as out-of-range float conversions, or resolution fails with \"no value provided and no default initializer\" for an override that has one (suffixed literals, conversion calls, most operators in the initialiser)"),
+    "nested": ("C14-nested-use-corruption", "after ProcessOverrides the function has ill-typed or corrupted expressions: a folded sub-expression is replaced by a literal of another type (float where bool/uint is required, `~` on a float, abstract-int operands left in builtin calls; MSL temporaries `reinterpreted_packed_*` of dot4I8Packed/dot4U8Packed referenced but no longer declared after the function was rebuilt): the IR interpreter, the SPIR-V reader and the text interpreters reject the output as malformed"),
+    "spirv": ("C14-spirv-after-resolution", "ProcessOverrides then SPIR-V: a resolved override that is referenced directly is emitted as OpConstantNull (every direct use reads zero), in addition to the evaluation defects of C14-derived-override-evaluation; some folded expressions give OpStore / OpBranchConditional type mismatches"),
+    "mslpc": ("C14-msl-pipeline-constants", "msl.Options.PipelineConstants: a missing value without default is accepted; derived overrides and module-scope initialisers that reference overrides, negative defaults (unary minus), comparisons / logical / bit / shift operators and most builtins are folded wrongly or not at all (absent and supplied values give wrong results; round() folds half away from zero)"),
+    "glslpc": ("C14-glsl-pipeline-constants", "glsl.Options.PipelineConstants: with an empty map overrides are left unresolved (\"unsupported expression kind: ir.ExprOverride\"); otherwise the same wrong values, errors and ill-formed output as the ProcessOverrides route"),
+    "caller": ("C14-caller-module-modified", "override resolution on ir.CloneModuleForOverrides alters the caller's module: statements inside nested blocks, and the slice / pointer fields of top-level statements (call Arguments, call Result, return Value) are shared with the clone and renumbered in place (see C12-overrides-shallow-clone); the changed part is in the key"),
+    "history": ("C14-history-dependent-result", "consequence of C14-caller-module-modified: after a first resolution of a module with nested blocks, a second resolution / MSL / GLSL compilation of the SAME module gives a different result than on a freshly lowered module"),
+}
+for _k in sorted(_c14):
+    _m, _p = _k.split("|")
+    _id, _w = _c14_what[_m]
+    kf("C14", _id + "." + _p, _w + " [sub-space " + _p + ": " + _c14_space[_p] + "]", _c14[_k])
 
 # ---------------------------------------------------------------- F3 / F4acc findings mirrored into the per-backend semantic checks
 # (the same defects as the C07 entries, observed through the C01/C03/C04/C05 checks, whose keys are prop|shape|config|class)
@@ -459,6 +479,8 @@ kf("C05", "C05-uniform-matCx2-dynamic-column", "a matCx2 directly in a uniform b
 
 kf("C14", "C14-override-sized-workgroup-array", "ir.ProcessOverrides leaves the size of `var<workgroup> w: array<u32, X>` unresolved (no constant size in the resolved module) for every way of supplying X",
    ["C14|sizes|*|array-size"])
+kf("C14", "C14-workgroup-size-override-dimensions", "an override in @workgroup_size is resolved only in the x dimension of a module's single entry point: as y or z argument (`@workgroup_size(2, X)`), with a second entry point in the module, or when the size is a derived override declared before the override it depends on, every backend (SPIR-V LocalSize, HLSL numthreads, GLSL local_size, also via glsl.Options.PipelineConstants) emits 1 for that dimension",
+   ["C14|sizes|dim-y|workgroup-size:*", "C14|sizes|dim-z|workgroup-size:*", "C14|sizes|dims-xyz|workgroup-size:*", "C14|sizes|second-entry-point|workgroup-size:*", "C14|sizes|derived-reverse|workgroup-size:*"])
 
 json.dump(K, open("known_findings.json", "w"), indent=1)
 print(len(K), "entries")
